@@ -11,6 +11,15 @@
 // database; the dumped tree is in canonical form; Prove/VerifyProof yields exactly the stored value
 // or absence and no single-bit corruption of a proof node verifies to a different value;
 // StackTrie == Trie on DeriveSha lists (lengths 0..300) and on sorted key sets.
+//
+// Persistence (copies): histories run on several handles - copies (SecureTrie.Copy, struct copy of
+// Trie = what state.Database.CopyTrie / StateDB.Copy do) taken at random points, mostly of
+// uncommitted in-memory tries; every operation addresses one handle. After every operation each
+// OTHER handle must still have exactly the node tree it had (persistence/*), and at the end every
+// handle must hold exactly what was written through it: content, root == fresh rebuild, canonical
+// tree == the model's tree for that handle (Model/C18.v:mcrun), honest proofs (copy/*).
+// Caller-owned key buffers are overwritten after each call (keys must not be retained) and
+// arguments must come back unmodified (caller-buffer/*).
 package main
 
 import (
@@ -38,10 +47,11 @@ var emptyRoot = common.HexToHash("56e81f171bcc55a6ff8345e692c0f86e5b48e01b996cad
 // ---------- case description (replayable) ----------
 
 type Op struct {
-	K   string `json:"k"`             // upd del get hash commit dump
+	K   string `json:"k"`             // upd del get hash commit dump copy
 	Key []byte `json:"key,omitempty"` // raw key (hashed by the secure trie)
 	Val []byte `json:"val,omitempty"`
 	Var int    `json:"var,omitempty"` // commit variant
+	H   int    `json:"h,omitempty"`   // handle the operation is applied to (0 = the original trie); for "copy": the handle that is copied, the copy becomes the next handle
 }
 
 type Case struct {
@@ -83,6 +93,20 @@ func (u *tut) open(root common.Hash) {
 	if err != nil {
 		panic(fmt.Sprintf("open %x: %v", root, err))
 	}
+}
+
+// fork is what SecureTrie.Copy / state.Database.CopyTrie (every StateDB.Copy) does: a second handle
+// on the very same in-memory nodes. A plain Trie is copied the way SecureTrie.Copy copies the Trie
+// it embeds (struct copy).
+func (u *tut) fork() *tut {
+	c := *u
+	if u.secure {
+		c.st = u.st.Copy()
+	} else {
+		t := *u.t
+		c.t = &t
+	}
+	return &c
 }
 
 // mkey is the key as stored in the trie proper (what the model sees).
@@ -313,7 +337,7 @@ func proofDB(nodes [][]byte) *memorydb.Database {
 	return db
 }
 
-func checkProofs(rep *hlib.Report, c *Case, u *tut, content map[string][]byte, probes [][]byte, rng *hlib.Rng, allBits bool) {
+func checkProofs(rep *hlib.Report, c *Case, u *tut, content map[string][]byte, probes [][]byte, rng *hlib.Rng, allBits bool, corrupt bool, pfx string) {
 	root := u.hash()
 	for _, mk := range probes {
 		want, present := content[string(mk)]
@@ -322,8 +346,14 @@ func checkProofs(rep *hlib.Report, c *Case, u *tut, content map[string][]byte, p
 			cls = "present"
 		}
 		var pl proofList
-		if err := u.prove(mk, &pl); err != nil {
-			rep.Fail("proof/prove-error/"+cls, fmt.Sprintf("Prove(%x) failed: %v", mk, err), c)
+		pk := cp(mk)
+		err := u.prove(pk, &pl)
+		if !bytes.Equal(pk, mk) {
+			rep.Fail("caller-buffer/prove-wrote-into-argument", fmt.Sprintf("Prove(%x) left its argument as %x", mk, pk), c)
+		}
+		scramble(pk)
+		if err != nil {
+			rep.Fail(pfx+"proof/prove-error/"+cls, fmt.Sprintf("Prove(%x) failed: %v", mk, err), c)
 			continue
 		}
 		got, err := trie.VerifyProof(root, mk, proofDB(pl))
@@ -333,11 +363,11 @@ func checkProofs(rep *hlib.Report, c *Case, u *tut, content map[string][]byte, p
 				rep.Fail("proof/empty-trie-absence-unprovable", fmt.Sprintf("empty trie: Prove(%x) returns an empty proof and VerifyProof rejects it (%v) instead of proving absence", mk, err), c)
 				continue
 			}
-			rep.Fail("proof/verify-error/"+cls, fmt.Sprintf("VerifyProof(%x) of an honest proof failed: %v", mk, err), c)
+			rep.Fail(pfx+"proof/verify-error/"+cls, fmt.Sprintf("VerifyProof(%x) of an honest proof failed: %v", mk, err), c)
 			continue
 		}
 		if !bytes.Equal(got, want) {
-			rep.Fail("proof/wrong-value/"+cls, fmt.Sprintf("VerifyProof(%x) = %x, trie holds %x", mk, got, want), c)
+			rep.Fail(pfx+"proof/wrong-value/"+cls, fmt.Sprintf("VerifyProof(%x) = %x, trie holds %x", mk, got, want), c)
 			continue
 		}
 		rep.Count("proof:" + cls)
@@ -352,6 +382,9 @@ func checkProofs(rep *hlib.Report, c *Case, u *tut, content map[string][]byte, p
 		}
 		// single-bit corruptions of each proof node
 		for i := range pl {
+			if !corrupt {
+				break
+			}
 			nbits := len(pl[i]) * 8
 			step := 1
 			if !allBits && nbits > 256 {
@@ -389,111 +422,276 @@ func verifyNoPanic(root common.Hash, key []byte, db ethdb.KeyValueReader) (v []b
 
 // ---------- running a trie history ----------
 
+// one handle on a trie: the original (handle 0) or a copy taken at some point of the history.
+// Copies share their in-memory nodes with the handle they were taken from; the property says the
+// root and the proofs of each handle are a function of the pairs stored through THAT handle, so an
+// operation applied to one handle must leave every other handle exactly as it was.
+type handle struct {
+	u         *tut
+	content   map[string][]byte // model key -> value, maintained by the harness (pristine buffers)
+	touched   map[string]bool   // raw keys ever used on this handle or its ancestors
+	last      string            // structural dump after the last operation applied to this handle
+	lastKinds int
+	collapses int
+}
+
+func (h *handle) fork() *handle {
+	n := &handle{u: h.u.fork(), content: map[string][]byte{}, touched: map[string]bool{}, last: h.last, lastKinds: h.lastKinds}
+	for k, v := range h.content {
+		n.content[k] = v
+	}
+	for k := range h.touched {
+		n.touched[k] = true
+	}
+	return n
+}
+
+func dumpString(u *tut) (string, *trie.VerifNode, error) {
+	d, err := u.dump()
+	if err != nil {
+		return "", nil, err
+	}
+	var sb strings.Builder
+	coqNode(d, &sb)
+	return sb.String(), d, nil
+}
+
+// scramble overwrites a buffer the caller owns again after a call returned: the trie must not have
+// kept a reference to it (keys are never retained; values are, by the documented contract of Update).
+func scramble(b []byte) {
+	for i := range b {
+		b[i] = ^b[i] ^ 0x5a
+	}
+}
+
 func runTrieCase(rep *hlib.Report, cw *hlib.CaseWriter, c *Case, rng *hlib.Rng, tier string) {
 	defer func() {
 		if r := recover(); r != nil {
 			rep.Fail("panic/trie-history", fmt.Sprintf("panic while running a history: %v", r), c)
 		}
 	}()
-	u := newTut(c.Secure)
-	content := map[string][]byte{} // model key -> value
-	touched := map[string]bool{}
+	hs := []*handle{{u: newTut(c.Secure), content: map[string][]byte{}, touched: map[string]bool{}, last: "DN"}}
+	multi := false
+	for _, o := range c.Ops {
+		if o.K == "copy" {
+			multi = true
+		}
+	}
 	var cops []string
+	emit := func(h int, s string) {
+		if multi {
+			s = fmt.Sprintf("RM %d%%nat (%s)", h, s)
+		}
+		cops = append(cops, s)
+	}
 	nontriv := false
-	collapses := 0
-	lastKinds := 0
+	hname := func(h int) string {
+		if h == 0 {
+			return "original"
+		}
+		return "copy"
+	}
+	// signature prefix: failures seen through a copy are a class of their own
+	pfx := func(h int) string {
+		if h == 0 {
+			return ""
+		}
+		return "copy/"
+	}
 
-	checkHash := func(phase string) {
-		h := u.hash()
-		sc := sortedContent(content)
-		if f := freshRoot(sc); f != h {
-			rep.Fail("history-independence/"+phase, fmt.Sprintf("Hash() %x after the history differs from %x of a fresh trie with the same %d pairs (sorted insertion)", h, f, len(sc)), c)
+	checkHash := func(hi int, phase string) {
+		h := hs[hi]
+		got := h.u.hash()
+		sc := sortedContent(h.content)
+		if f := freshRoot(sc); f != got {
+			rep.Fail(pfx(hi)+"history-independence/"+phase, fmt.Sprintf("Hash() %x of handle %d (%s) after the history differs from %x of a fresh trie with the same %d pairs (sorted insertion)", got, hi, hname(hi), f, len(sc)), c)
 			return
 		}
 		rev := make([]kv, len(sc))
 		for i := range sc {
 			rev[len(sc)-1-i] = sc[i]
 		}
-		if f := freshRoot(rev); f != h {
-			rep.Fail("history-independence/"+phase, fmt.Sprintf("fresh tries with the same content disagree: reversed insertion gives %x, history gives %x", f, h), c)
+		if f := freshRoot(rev); f != got {
+			rep.Fail(pfx(hi)+"history-independence/"+phase, fmt.Sprintf("fresh tries with the same content disagree: reversed insertion gives %x, history gives %x", f, got), c)
 		}
 	}
-	checkContent := func(phase string) {
-		for k := range touched {
+	checkContent := func(hi int, phase string) {
+		h := hs[hi]
+		for _, k := range hlib.SortedKeys(h.touched) {
 			raw := []byte(k)
-			got, err := u.get(raw)
-			want := content[string(u.mkey(raw))]
+			want := h.content[string(h.u.mkey(raw))]
+			got, err := h.u.get(raw)
 			if err != nil || !bytes.Equal(got, want) {
-				rep.Fail("content/"+phase, fmt.Sprintf("Get(%x) = %x (err %v), last write was %x", raw, got, err, want), c)
+				rep.Fail(pfx(hi)+"content/"+phase, fmt.Sprintf("handle %d (%s): Get(%x) = %x (err %v), last write through this handle was %x", hi, hname(hi), []byte(k), got, err, want), c)
 				return
 			}
 		}
 	}
-	addDump := func(phase string) {
-		d, err := u.dump()
+	// refresh recomputes the structural view of a handle after an operation on it
+	refresh := func(hi int) (string, bool) {
+		h := hs[hi]
+		s, d, err := dumpString(h.u)
 		if err != nil {
-			rep.Fail("dump/"+phase, fmt.Sprintf("trie cannot be traversed: %v", err), c)
+			rep.Fail("dump/live", fmt.Sprintf("trie (handle %d) cannot be traversed: %v", hi, err), c)
+			return "", false
+		}
+		_ = d
+		h.last = s
+		return s, true
+	}
+	addDump := func(hi int, phase string) {
+		h := hs[hi]
+		s, d, err := dumpString(h.u)
+		if err != nil {
+			rep.Fail("dump/"+phase, fmt.Sprintf("trie (handle %d) cannot be traversed: %v", hi, err), c)
 			return
 		}
-		if s := canonical(d, true, false); s != "" {
-			rep.Fail("canonical/"+s, "the node tree is not in canonical form ("+s+") "+phase, c)
+		if e := canonical(d, true, false); e != "" {
+			rep.Fail(pfx(hi)+"canonical/"+e, fmt.Sprintf("the node tree of handle %d is not in canonical form (%s) %s", hi, e, phase), c)
 		}
-		var sb strings.Builder
-		coqNode(d, &sb)
-		cops = append(cops, "RDump ("+sb.String()+")")
-		kinds := strings.Count(sb.String(), "DF") + strings.Count(sb.String(), "DS")
-		if kinds < lastKinds {
-			collapses++
+		emit(hi, "RDump ("+s+")")
+		kinds := strings.Count(s, "DF") + strings.Count(s, "DS")
+		if kinds < h.lastKinds {
+			h.collapses++
 		}
-		lastKinds = kinds
+		h.lastKinds = kinds
+	}
+	// persistence: after an operation on handle `on`, every OTHER handle still has exactly the
+	// node tree it had (the dump resolves nothing new for in-memory nodes, and reads key bytes
+	// and values of every node, so in-place writes into shared nodes show).
+	interval := 1
+	if len(c.Ops) > 150 {
+		interval = 4
+	}
+	since := map[int]bool{}
+	pass := func(after string) {
+		for gi, g := range hs {
+			if since[gi] {
+				refresh(gi)
+				continue
+			}
+			s, _, err := dumpString(g.u)
+			if err != nil {
+				rep.Fail("persistence/untouched-handle-unreadable/"+after, fmt.Sprintf("handle %d (%s) cannot be traversed any more after a %s on another handle: %v", gi, hname(gi), after, err), c)
+				continue
+			}
+			if s != g.last {
+				rep.Fail("persistence/untouched-handle-changed/"+after, fmt.Sprintf("the node tree of handle %d (%s), to which no operation was applied, changed after a %s on another handle: was %s, is %s", gi, hname(gi), after, abbrev(g.last), abbrev(s)), c)
+				g.last = s
+			}
+		}
+		since = map[int]bool{}
+	}
+	mutated := func(hi int, kind string, i int) {
+		since[hi] = true
+		if len(hs) == 1 {
+			return
+		}
+		if interval == 1 {
+			pass(kind)
+		} else if i%interval == 0 {
+			pass("batch")
+		}
 	}
 
-	for _, o := range c.Ops {
+	observed := func(kind string) {
+		if len(hs) > 1 && interval == 1 {
+			pass(kind)
+		}
+	}
+
+	for i, o := range c.Ops {
 		rep.Count("op:" + o.K)
+		if o.H < 0 || o.H >= len(hs) {
+			continue // malformed replay file
+		}
+		h := hs[o.H]
+		u := h.u
+		if o.H > 0 {
+			rep.Count("op-on-copy:" + o.K)
+		}
 		switch o.K {
 		case "upd":
-			if err := u.update(o.Key, o.Val); err != nil {
+			kk, vv := cp(o.Key), cp(o.Val)
+			err := u.update(kk, vv)
+			if err != nil {
 				rep.Fail("error/update", fmt.Sprintf("TryUpdate failed: %v", err), c)
 				return
 			}
+			if !bytes.Equal(kk, o.Key) || !bytes.Equal(vv, o.Val) {
+				rep.Fail("caller-buffer/update-wrote-into-argument", fmt.Sprintf("TryUpdate(%x, %x) left its arguments as (%x, %x)", o.Key, o.Val, kk, vv), c)
+			}
+			scramble(kk) // the key buffer is the caller's again; vv stays with the trie (documented)
 			mk := u.mkey(o.Key)
-			touched[string(o.Key)] = true
+			h.touched[string(o.Key)] = true
 			if len(o.Val) == 0 {
-				if _, ok := content[string(mk)]; ok {
+				if _, ok := h.content[string(mk)]; ok {
 					nontriv = true
 				}
-				delete(content, string(mk))
+				delete(h.content, string(mk))
 			} else {
-				content[string(mk)] = o.Val
+				h.content[string(mk)] = o.Val
 			}
-			cops = append(cops, fmt.Sprintf("RUpd %s %s", pack(mk), pack(o.Val)))
+			emit(o.H, fmt.Sprintf("RUpd %s %s", pack(mk), pack(o.Val)))
+			mutated(o.H, "update", i)
 		case "del":
-			if err := u.del(o.Key); err != nil {
+			kk := cp(o.Key)
+			err := u.del(kk)
+			if err != nil {
 				rep.Fail("error/delete", fmt.Sprintf("TryDelete failed: %v", err), c)
 				return
 			}
+			if !bytes.Equal(kk, o.Key) {
+				rep.Fail("caller-buffer/delete-wrote-into-argument", fmt.Sprintf("TryDelete(%x) left its argument as %x", o.Key, kk), c)
+			}
+			scramble(kk)
 			mk := u.mkey(o.Key)
-			touched[string(o.Key)] = true
-			if _, ok := content[string(mk)]; ok {
+			h.touched[string(o.Key)] = true
+			if _, ok := h.content[string(mk)]; ok {
 				nontriv = true
 			}
-			delete(content, string(mk))
-			cops = append(cops, "RDel "+pack(mk))
+			delete(h.content, string(mk))
+			emit(o.H, "RDel "+pack(mk))
+			mutated(o.H, "delete", i)
 		case "get":
-			v, err := u.get(o.Key)
+			kk := cp(o.Key)
+			v, err := u.get(kk)
 			if err != nil {
 				rep.Fail("error/get", fmt.Sprintf("TryGet failed: %v", err), c)
 				return
 			}
-			mk := u.mkey(o.Key)
-			if !bytes.Equal(v, content[string(mk)]) {
-				rep.Fail("content/get", fmt.Sprintf("Get(%x) = %x, last write was %x", o.Key, v, content[string(mk)]), c)
+			if !bytes.Equal(kk, o.Key) {
+				rep.Fail("caller-buffer/get-wrote-into-argument", fmt.Sprintf("TryGet(%x) left its argument as %x", o.Key, kk), c)
 			}
-			cops = append(cops, fmt.Sprintf("RGet %s %s", pack(mk), pack(v)))
+			scramble(kk)
+			mk := u.mkey(o.Key)
+			if !bytes.Equal(v, h.content[string(mk)]) {
+				rep.Fail(pfx(o.H)+"content/get", fmt.Sprintf("handle %d: Get(%x) = %x, last write was %x", o.H, o.Key, v, h.content[string(mk)]), c)
+			}
+			emit(o.H, fmt.Sprintf("RGet %s %s", pack(mk), pack(v)))
+			observed("get") // a read may load nodes into its own handle; no node tree changes, its own included
 		case "hash":
-			checkHash("live")
+			checkHash(o.H, "live")
+			observed("hash") // Hash() caches hashes in its own handle; no node tree changes
 		case "dump":
-			addDump("mid-history")
+			addDump(o.H, "mid-history")
+		case "copy":
+			if len(hs) >= 8 {
+				continue
+			}
+			if since[o.H] { // batched passes: bring the source's reference view up to date first
+				refresh(o.H)
+				since[o.H] = false
+			}
+			n := h.fork()
+			hs = append(hs, n)
+			cops = append(cops, fmt.Sprintf("RCp %d%%nat", o.H))
+			// the copy is the source: same node tree
+			if s, _, err := dumpString(n.u); err != nil || s != h.last {
+				rep.Fail("persistence/copy-differs-from-source", fmt.Sprintf("a fresh copy of handle %d has node tree %s, the source has %s (err %v)", o.H, abbrev(s), abbrev(h.last), err), c)
+				n.last = s
+			}
+			nontriv = true
 		case "commit":
 			before := u.hash()
 			root, err := u.commit(o.Var)
@@ -504,63 +702,107 @@ func runTrieCase(rep *hlib.Report, cw *hlib.CaseWriter, c *Case, rng *hlib.Rng, 
 			if root != before {
 				rep.Fail("commit/root-changed", fmt.Sprintf("Commit returned %x, Hash() before was %x", root, before), c)
 			}
-			if h := u.hash(); h != root {
-				rep.Fail("commit/reload-root", fmt.Sprintf("Hash() after commit/reload (variant %d) is %x, committed root %x", o.Var, h, root), c)
+			if g := u.hash(); g != root {
+				rep.Fail("commit/reload-root", fmt.Sprintf("Hash() after commit/reload (variant %d) is %x, committed root %x", o.Var, g, root), c)
 			}
 			phase := fmt.Sprintf("after-commit-%d", o.Var)
-			checkHash(phase)
-			checkContent(phase)
-			cops = append(cops, "RCommit")
-			addDump(phase)
+			checkHash(o.H, phase)
+			checkContent(o.H, phase)
+			emit(o.H, "RCommit")
+			addDump(o.H, phase)
 			nontriv = true
+			mutated(o.H, "commit", i)
 		}
 	}
-	checkHash("final")
-	checkContent("final")
-	addDump("final")
+	if len(hs) > 1 {
+		pass("history")
+	}
+	// every handle, the original and each copy, holds exactly what was written through it:
+	// root == root of a fresh trie with that content, Get, canonical node tree (and the model's)
+	for hi := range hs {
+		checkHash(hi, "final")
+		checkContent(hi, "final")
+		addDump(hi, "final")
+	}
+	// ... and none of those read-only checks (Hash caches hashes in the handle it is called on)
+	// disturbed another handle
+	if len(hs) > 1 {
+		for hi := range hs {
+			since[hi] = false
+		}
+		for gi, g := range hs {
+			if s, _, err := dumpString(g.u); err != nil || s != g.last {
+				rep.Fail("persistence/untouched-handle-changed/final-checks", fmt.Sprintf("the node tree of handle %d changed while the handles were only hashed and read: was %s, is %s (err %v)", gi, abbrev(g.last), abbrev(s), err), c)
+			}
+		}
+		for hi := range hs {
+			checkContent(hi, "final-recheck")
+		}
+	}
 
-	// proofs: a few present keys, a few absent ones (touched-and-deleted, and near misses)
-	var probes [][]byte
-	sc := sortedContent(content)
-	np := 2
-	if tier == "thorough" {
-		np = 4
-	}
-	for i := 0; i < np && len(sc) > 0; i++ {
-		probes = append(probes, sc[rng.Intn(len(sc))].k)
-	}
-	for k := range touched {
-		mk := u.mkey([]byte(k))
-		if _, ok := content[string(mk)]; !ok {
-			probes = append(probes, mk)
-			break
+	// proofs: a few present keys, a few absent ones (touched-and-deleted, and near misses); for the
+	// original with every single-bit corruption, for each copy the honest proofs
+	for hi, h := range hs {
+		var probes [][]byte
+		sc := sortedContent(h.content)
+		np := 2
+		if tier == "thorough" {
+			np = 4
 		}
-	}
-	if len(sc) == 0 && len(probes) == 0 {
-		probes = append(probes, []byte{1})
-	}
-	if len(sc) > 0 {
-		near := common.CopyBytes(sc[rng.Intn(len(sc))].k)
-		if len(near) > 0 {
-			near[len(near)-1] ^= 1 << uint(rng.Intn(8))
-			probes = append(probes, near)
+		for i := 0; i < np && len(sc) > 0; i++ {
+			probes = append(probes, sc[rng.Intn(len(sc))].k)
 		}
+		for _, k := range hlib.SortedKeys(h.touched) {
+			mk := h.u.mkey([]byte(k))
+			if _, ok := h.content[string(mk)]; !ok {
+				probes = append(probes, mk)
+				break
+			}
+		}
+		if len(sc) == 0 && len(probes) == 0 {
+			probes = append(probes, []byte{1})
+		}
+		if len(sc) > 0 {
+			near := common.CopyBytes(sc[rng.Intn(len(sc))].k)
+			if len(near) > 0 {
+				near[len(near)-1] ^= 1 << uint(rng.Intn(8))
+				probes = append(probes, near)
+			}
+		}
+		sort.Slice(probes, func(i, j int) bool { return bytes.Compare(probes[i], probes[j]) < 0 })
+		checkProofs(rep, c, h.u, h.content, probes, rng, len(sc) <= 6, hi == 0, pfx(hi))
 	}
-	sort.Slice(probes, func(i, j int) bool { return bytes.Compare(probes[i], probes[j]) < 0 })
-	checkProofs(rep, c, u, content, probes, rng, len(sc) <= 6)
 
 	rep.Evaluations++
 	rep.TracesValidated++
 	rep.Count("gen:" + c.Gen)
-	rep.Count(fmt.Sprintf("final-size:%s", bucket(len(content))))
-	if collapses > 0 {
+	rep.Count(fmt.Sprintf("final-size:%s", bucket(len(hs[0].content))))
+	rep.Count(fmt.Sprintf("handles:%d", len(hs)))
+	shrunk := false
+	for _, h := range hs {
+		if h.collapses > 0 {
+			shrunk = true
+		}
+	}
+	if shrunk {
 		rep.Count("histories-with-shrinking-tree")
 	}
-	if nontriv && len(content) > 0 {
+	if nontriv && (len(hs[0].content) > 0 || len(hs) > 1) {
 		rep.Nontrivial(fmt.Sprintf("trie/%d", c.ID))
 	}
-	cw.Add(fmt.Sprintf("(%d%%N, BTrie %s)", c.ID, hlib.CoqList(cops)), c)
+	if multi {
+		cw.Add(fmt.Sprintf("(%d%%N, BMulti %s)", c.ID, hlib.CoqList(cops)), c)
+	} else {
+		cw.Add(fmt.Sprintf("(%d%%N, BTrie %s)", c.ID, hlib.CoqList(cops)), c)
+	}
 	rep.Sample(c)
+}
+
+func abbrev(s string) string {
+	if len(s) > 400 {
+		return s[:400] + "..."
+	}
+	return s
 }
 
 func bucket(n int) string {
@@ -782,9 +1024,16 @@ func genTrieCase(r *hlib.Rng, id int) *Case {
 		n += bulk
 		c.Gen += "+bulk"
 	}
-	live := map[string]bool{}
+	// several handles: copies (SecureTrie.Copy / struct copy) taken at random points, mostly of
+	// tries with uncommitted in-memory nodes; every later operation picks one of the handles
+	multi := r.Chance(55)
+	maxHandles := 4
+	lives := []map[string]bool{{}}
+	if multi {
+		c.Gen += "+copies"
+	}
 	pick := func() []byte { return cp(uni[r.Intn(len(uni))]) }
-	pickLive := func() []byte {
+	pickLive := func(live map[string]bool) []byte {
 		if len(live) == 0 {
 			return pick()
 		}
@@ -796,60 +1045,91 @@ func genTrieCase(r *hlib.Rng, id int) *Case {
 		return []byte(ks[r.Intn(len(ks))])
 	}
 	// build phase then churn phase, so that deletes meet populated tries
+	burst := 0 // operations right after a copy: structural changes on either side of it
+	var burstPair [2]int
 	for i := 0; i < n; i++ {
-		w := []int{40, 12, 4, 22, 5, 8, 4, 5, 1}
+		w := []int{40, 12, 4, 22, 5, 8, 4, 5, 1, 0}
 		if i < n/3 {
-			w = []int{70, 8, 2, 6, 2, 6, 2, 3, 0}
+			w = []int{70, 8, 2, 6, 2, 6, 2, 3, 0, 0}
 		}
 		if i < bulk {
-			w = []int{80, 8, 2, 8, 2, 0, 0, 0, 0}
+			w = []int{80, 8, 2, 8, 2, 0, 0, 0, 0, 0}
 		}
+		if multi && len(lives) < maxHandles && i >= 2 {
+			w[9] = 7
+			if i < bulk {
+				w[9] = 1
+			}
+		}
+		inBurst := burst > 0
+		if inBurst {
+			burst--
+			w = []int{30, 4, 0, 50, 4, 4, 4, 4, 0, 0}
+		}
+		h := 0
+		if len(lives) > 1 {
+			h = r.Intn(len(lives))
+			if inBurst && r.Chance(80) { // the source of the last copy, or that copy
+				h = burstPair[r.Intn(2)]
+			}
+		}
+		live := lives[h]
 		switch r.Pick(w...) {
 		case 0: // insert / overwrite
 			k := pick()
-			c.Ops = append(c.Ops, Op{K: "upd", Key: k, Val: genVal(r)})
+			c.Ops = append(c.Ops, Op{K: "upd", Key: k, Val: genVal(r), H: h})
 			live[string(k)] = true
 		case 1: // overwrite a live key
-			k := pickLive()
-			c.Ops = append(c.Ops, Op{K: "upd", Key: k, Val: genVal(r)})
+			k := pickLive(live)
+			c.Ops = append(c.Ops, Op{K: "upd", Key: k, Val: genVal(r), H: h})
 			live[string(k)] = true
 		case 2: // rewrite (possibly) the same value: value chosen from a tiny set
-			k := pickLive()
-			c.Ops = append(c.Ops, Op{K: "upd", Key: k, Val: []byte{7}})
+			k := pickLive(live)
+			c.Ops = append(c.Ops, Op{K: "upd", Key: k, Val: []byte{7}, H: h})
 			live[string(k)] = true
 		case 3: // delete a live key, through either API
-			k := pickLive()
+			k := pickLive(live)
 			if r.Bool() {
-				c.Ops = append(c.Ops, Op{K: "del", Key: k})
+				c.Ops = append(c.Ops, Op{K: "del", Key: k, H: h})
 			} else {
-				c.Ops = append(c.Ops, Op{K: "upd", Key: k, Val: []byte{}})
+				c.Ops = append(c.Ops, Op{K: "upd", Key: k, Val: []byte{}, H: h})
 			}
 			delete(live, string(k))
 		case 4: // delete something that is probably absent
 			k := pick()
-			c.Ops = append(c.Ops, Op{K: "del", Key: k})
+			c.Ops = append(c.Ops, Op{K: "del", Key: k, H: h})
 			delete(live, string(k))
 		case 5:
-			c.Ops = append(c.Ops, Op{K: "get", Key: pick()})
+			c.Ops = append(c.Ops, Op{K: "get", Key: pick(), H: h})
 		case 6:
-			c.Ops = append(c.Ops, Op{K: "hash"})
+			c.Ops = append(c.Ops, Op{K: "hash", H: h})
 		case 7:
-			c.Ops = append(c.Ops, Op{K: "commit", Var: r.Intn(3)})
+			c.Ops = append(c.Ops, Op{K: "commit", Var: r.Intn(3), H: h})
 		case 8:
-			c.Ops = append(c.Ops, Op{K: "dump"})
+			c.Ops = append(c.Ops, Op{K: "dump", H: h})
+		case 9:
+			c.Ops = append(c.Ops, Op{K: "copy", H: h})
+			nl := map[string]bool{}
+			for k := range live {
+				nl[k] = true
+			}
+			lives = append(lives, nl)
+			burst = 1 + r.Intn(4)
+			burstPair = [2]int{h, len(lives) - 1}
 		}
 	}
-	// sometimes empty the trie completely again, or all but one key
+	// sometimes empty a trie completely again, or all but one key
 	if r.Chance(12) {
 		keep := r.Intn(2)
-		ks := make([]string, 0, len(live))
-		for k := range live {
+		h := r.Intn(len(lives))
+		ks := make([]string, 0, len(lives[h]))
+		for k := range lives[h] {
 			ks = append(ks, k)
 		}
 		sort.Strings(ks)
 		for len(ks) > keep {
 			i := r.Intn(len(ks))
-			c.Ops = append(c.Ops, Op{K: "del", Key: []byte(ks[i])})
+			c.Ops = append(c.Ops, Op{K: "del", Key: []byte(ks[i]), H: h})
 			ks = append(ks[:i], ks[i+1:]...)
 		}
 	}
@@ -888,10 +1168,73 @@ func corpus() []*Case {
 	add("order-b", false, up(b(1), b(4)), up(b(2, 0), b(3)), up(b(1, 3), b(2)), up(b(9), b(9)), up(b(1, 2), b(1)), del(b(9)))
 	add("secure-basic", true, up(b(1), big), up(b(2), b(2)), up(b(3), b(3)), Op{K: "commit", Var: 2}, del(b(2)), up(b(4), big), Op{K: "commit", Var: 0}, del(b(1)))
 	add("delete-absent", false, up(b(1, 2), b(1)), up(b(1, 3), b(2)), del(b(1)), del(b(1, 2, 3)), del(b(1, 4)), del(b(2)))
+	// ---- persistence: copies share in-memory nodes; an operation on one handle must not show in another.
+	// keys 1234 / 1567 / 1589: an extension [1] over a branch whose children are leaves with long
+	// keys; the extension's key is a prefix slice of the hex buffer of the key inserted second.
+	cpy := func(h int) Op { return Op{K: "copy", H: h} }
+	on := func(h int, o Op) Op { o.H = h; return o }
+	hash := func(h int) Op { return Op{K: "hash", H: h} }
+	kA, kB, kC := b(0x12, 0x34), b(0x15, 0x67), b(0x15, 0x89)
+	// delete on the original collapses the branch under the extension (short/short merge), the copy keeps both
+	add("copy/original-deletes-second-key", false, up(kA, b(1)), up(kB, b(2)), cpy(0), del(kB))
+	add("copy/original-deletes-first-key", false, up(kA, b(1)), up(kB, b(2)), cpy(0), del(kA))
+	add("copy/copy-deletes-second-key", false, up(kA, b(1)), up(kB, b(2)), cpy(0), on(1, del(kB)))
+	add("copy/copy-deletes-first-key", false, up(kA, b(1)), up(kB, b(2)), cpy(0), on(1, del(kA)))
+	add("copy/delete-by-empty-value", false, up(kA, big), up(kB, big), cpy(0), up(kB, b()), on(1, up(kA, b())))
+	// the same below another branch (merge happens two levels up), and with three keys (collapse into an extension)
+	add("copy/collapse-into-extension", false, up(kA, b(1)), up(kB, b(2)), up(kC, b(3)), cpy(0), del(kA), on(1, del(kC)), on(1, del(kB)))
+	add("copy/nested", false, up(b(0xaa, 0x12, 0x34), b(1)), up(b(0xaa, 0x15, 0x67), b(2)), up(b(0xbb), b(3)), cpy(0), del(b(0xaa, 0x15, 0x67)), cpy(0), on(2, del(b(0xbb))), on(1, del(b(0xaa, 0x12, 0x34))))
+	// cached hashes in shared nodes: hash before the copy, on the copy, on the original
+	add("copy/after-hash", false, up(kA, big), up(kB, big), hash(0), cpy(0), del(kB), on(1, up(kC, big)), hash(1), on(1, del(kA)))
+	add("copy/hash-on-copy-only", false, up(kA, b(1)), up(kB, b(2)), cpy(0), hash(1), del(kB), up(kC, b(3)))
+	// an insert on one side splits an extension / a leaf that the other side still uses
+	add("copy/insert-splits-extension", false, up(kA, b(1)), up(kB, b(2)), up(kC, b(3)), cpy(0), on(1, up(b(0x15, 0x60), b(4))), up(b(0x25), b(5)), on(1, del(kB)), del(kC))
+	add("copy/insert-splits-leaf", false, up(kA, big), cpy(0), up(b(0x12, 0x35), b(2)), on(1, up(b(0x12, 0x44), b(3))), del(kA), on(1, del(b(0x12, 0x44))))
+	// copies of committed tries (hash-node root, nodes loaded on demand into each handle separately)
+	for v := 0; v < 3; v++ {
+		add(fmt.Sprintf("copy/after-commit-%d", v), false, up(kA, big), up(kB, big), up(kC, big), Op{K: "commit", Var: v}, cpy(0), del(kB), on(1, del(kA)), on(1, Op{K: "commit", Var: v}), del(kC), Op{K: "commit", Var: (v + 1) % 3})
+	}
+	add("copy/uncommitted-then-both-commit", false, up(kA, big), up(kB, big), cpy(0), del(kB), Op{K: "commit", Var: 1}, on(1, up(kC, big)), on(1, Op{K: "commit", Var: 2}), on(1, del(kA)))
+	// copy of a copy, three diverging handles, the original emptied
+	add("copy/of-copy", false, up(kA, b(1)), up(kB, b(2)), cpy(0), on(1, up(kC, b(3))), cpy(1), on(2, del(kB)), on(1, del(kA)), del(kA), del(kB))
+	// secure trie (what core/state copies): raw keys whose keccak images share leading nibbles
+	sa, sb2, sc2 := secureSiblings()
+	add("copy/secure-original-deletes", true, up(sa, b(0xaa, 1)), up(sb2, b(0xbb, 2)), cpy(0), del(sb2))
+	add("copy/secure-copy-deletes", true, up(sa, b(0xaa, 1)), up(sb2, b(0xbb, 2)), cpy(0), on(1, del(sb2)), del(sa))
+	add("copy/secure-three", true, up(sa, big), up(sb2, big), up(sc2, big), cpy(0), del(sc2), on(1, del(sa)), cpy(1), on(2, del(sb2)), on(1, Op{K: "commit", Var: 0}), on(1, del(sc2)))
 	for i, c := range cs {
 		c.ID = i
 	}
 	return cs
+}
+
+// three raw 32-byte keys (storage-slot like) whose keccak images share the first nibble, the
+// second and third also the second nibble: ext -> branch -> {leaf, ext -> branch -> {leaf, leaf}} or similar
+func secureSiblings() (a, b, c []byte) {
+	mk := func(i uint64) []byte {
+		k := make([]byte, 32)
+		for j := 0; j < 8; j++ {
+			k[31-j] = byte(i >> (8 * uint(j)))
+		}
+		return k
+	}
+	a = mk(1)
+	ha := crypto.Keccak256(a)
+	for i := uint64(2); ; i++ {
+		k := mk(i)
+		hk := crypto.Keccak256(k)
+		if ha[0]>>4 != hk[0]>>4 {
+			continue
+		}
+		if b == nil {
+			b = k
+			continue
+		}
+		if hb := crypto.Keccak256(b); hb[0] == hk[0] {
+			c = k
+			return
+		}
+	}
 }
 
 func genDeriveCase(r *hlib.Rng, id, n int) *Case {
@@ -943,9 +1286,9 @@ func main() {
 	f := hlib.ParseFlags()
 	logger = hlib.QuietLogs()
 	rng := hlib.NewRng(f.Seed)
-	rep := hlib.NewReport("C18", "a case is one trie history (plain or secure trie; inserts, overwrites, deletes through both APIs, empty values, Hash, Commit+reload in 3 variants) "+
+	rep := hlib.NewReport("C18", "a case is one trie history (plain or secure trie; inserts, overwrites, deletes through both APIs, empty values, Hash, Commit+reload in 3 variants; in about half of them over up to 4 handles = copies sharing in-memory nodes) "+
 		"checked for structure, content, history independence and Merkle proofs, or one DeriveSha list (StackTrie vs Trie), or one ascending key set (StackTrie vs Trie); "+
-		"non-trivial = the history deletes a present key or commits and ends non-empty / the list has >= 2 items; distinct by case")
+		"non-trivial = the history deletes a present key, commits or copies and ends non-empty (or has copies) / the list has >= 2 items; distinct by case")
 	cw := hlib.NewCaseWriter(f.Out, "From Coq Require Import List NArith Bool Uint63.\nFrom GQ Require Import Lib.Key Model.C18.\nImport ListNotations.\nLocal Open Scope uint63_scope.\n", "C18.case", 30)
 
 	if f.Replay != "" {
